@@ -771,6 +771,16 @@ def run_asan(exe, work, seed, designs, nseq, nops, slacks="-"):
             merge(n)
             if r:
                 findings.append(r)
+    # forked cases that the sanitizer killed: which pass, which design
+    pd = {d[0][0].split()[1]: d[0] for d in designs}
+    by = {}
+    for c in case_crashes(sorted(glob.glob(str(work / "*.wf")))):
+        by.setdefault(c["crash_in"], []).append(c)
+    for where, cs in sorted(by.items()):
+        c = min(cs, key=lambda x: len(pd.get(split_tag(x["tag"])[0], [])) or 10 ** 9)
+        rep_txt = next((f["report"] for f in findings if f.get("report")), "")
+        findings.insert(0, dict(where=f"{where} ({len(cs)} cases, e.g. {c['tag']})", key=f"asan crash-in={where}", rc=0, report=rep_txt,
+                                cases=sorted({x["tag"] for x in cs})[:12], program=pd.get(split_tag(c["tag"])[0])))
     return findings, runs, notes
 
 
@@ -930,7 +940,8 @@ def main():
                         recoverable_vptr_notes_by_location=notes,
                         note="supporting evidence only: absence of reports on the sampled corpora, not a proof of memory safety")
             for fnd in findings:
-                found.append(dict(property=CID, what="sanitizer report (ASan/UBSan build of gatery + harness; supporting evidence tier)",
+                found.append(dict(property=CID, key=fnd.get("key"), cases=fnd.get("cases"),
+                                  what="sanitizer report (ASan/UBSan build of gatery + harness; supporting evidence tier)",
                                   where=fnd["where"], report=fnd["report"], ops=fnd.get("ops"), program=fnd.get("program"),
                                   unfinished=fnd.get("unfinished"),
                                   how_to_rerun="build/harness/C09_wf_asan nodeio|design ... (see checks/C09.py run_asan)"))
@@ -1012,7 +1023,9 @@ def main():
             continue
         seen_keys.add(k)
         text = json.dumps(fnd, default=str)
-        kn = [x for x in known if x and (x in text or (fnd.get("key") and fnd["key"] in x) or (fnd.get("function") and fnd["function"] in x))]
+        tok = re.search(r"crash-in=\S+", fnd.get("key") or "")
+        kn = [x for x in known if x and (x in text or (fnd.get("key") and fnd["key"] in x) or (tok and tok.group(0) in x.split())
+                                         or (fnd.get("function") and fnd["function"] in x))]
         if kn:
             rep.known((fnd.get("key") or fnd.get("what", "")) + " -- " + str(fnd.get("violations", fnd.get("cases", fnd.get("file", ""))))[:200])
         elif reported < 8:
